@@ -1,4 +1,5 @@
 import UgoVerif.Model.Ops
+import UgoVerif.Gen.NumericSimp
 import Batteries.Data.List.Perm
 /-
   Helper lemmas for C15 `equal_comm`: symmetry of `valEqual` on all values,
